@@ -16,11 +16,19 @@ func zzPct(d zzverif.Z, pct int64) zzverif.Z { return d.Mul(zzverif.ZOf(pct)).Di
 // existing-plan state and ratio setting. The price function is cut (Override): the purchase is charged
 // whatever the chain's own price function returns, the subject here is how that amount is charged and split.
 func zzBuyStorage(mode string) {
-	zzRatioGrid = []int64{25, 40} // quick: the default commission and liquidity ratios (either way round)
+	// quick: the default commission (25) and liquidity ratio (40); the share arithmetic is proved for every
+	// whole percentage by the kernel, thorough explores a grid of settings through the handler as well
+	zzRatioFixed = map[string]int64{"param.ReferralCommission": 25, "param.PolRatio": 40}
 	if zzverif.Thorough() {
+		zzRatioFixed = nil
 		zzRatioGrid = []int64{0, 10, 25, 40, 60}
 	}
 	e := zzSetup()
+	if !zzverif.Thorough() {
+		// quick: no gauge record yet under the id this purchase derives (merging a deposit into an existing
+		// gauge is C12's subject and multiplies the paths eightfold)
+		zzverif.AssumeNoKeysWithPrefix("storage", types.PaymentGaugeKeyPrefix)
+	}
 	switch mode {
 	case "fresh": // no plan yet; recipient and referral given as addresses (no name resolution)
 		zzverif.AssumeNoKeysWithPrefix("storage", types.StoragePaymentInfoKeyPrefix)
